@@ -80,8 +80,9 @@ PROPS["C09"] = dict(
         "c09_metric_name_regex_3chars": dict(cap=900),
         "c09_label_name_regex_3chars": dict(cap=900),
         "c09_desc_new_checks_names": dict(cap=1200),
-        "c09_desc_new_rejects_duplicate_label_names": dict(cap=1200),
-        "c09_histogram_rejects_le": dict(cap=1200),
+        "c09_desc_new_rejects_duplicate_label_names": dict(cap=1800),
+        "c09_desc_new_two_const_one_variable": dict(cap=1800),
+        "c09_histogram_rejects_le": dict(cap=1800),
     },
     functions=["desc::is_valid_metric_name", "desc::is_valid_label_name", "desc::is_valid_ident", "Desc::new", "histogram::check_bucket_label", "HistogramCore::new"],
     bounds="names of <= 3 arbitrary Unicode scalar values (unit level), <= 2 in Desc::new; label-name pools of 6 names; <= 1 const + 2 variable labels",
@@ -115,19 +116,19 @@ PROPS["C05"] = dict(
 PROPS["C06"] = dict(
     hosts={"registry": ["c06.rs"]},
     cfgs=["prometheus_verif_map"],
-    jobs=6,
+    jobs=4,
     harnesses={
-        "c06_refused_registration_leaves_no_trace": dict(cap=1200),
-        "c06_unregister_then_reregister_gather": dict(cap=1800),
-        "c06_history_3ops": dict(cap=2400),
-        "c06_history_4ops": dict(cap=5400, tier="thorough"),
+        "c06_register_one_descriptor_step": dict(cap=1800),
+        "c06_register_two_descriptors_step": dict(cap=2400),
+        "c06_unregister_step": dict(cap=1800),
+        "c06_same_collector_twice_and_gather": dict(cap=1800),
     },
     functions=["RegistryCore::register", "RegistryCore::unregister", "RegistryCore::gather"],
-    bounds="histories of 3 (quick) / 4 (thorough) register|unregister calls over a pool of 4 collectors (3 single-descriptor, 1 two-descriptor) whose descriptor ids (3 values), dimension hashes (2) and names (2) are symbolic; residue scenario with fully symbolic 64-bit ids and dimension hashes; unwind 6",
-    outside="longer histories, larger pools, collectors with duplicate descriptors inside one collector; collisions of the collector id (sum of descriptor ids)",
-    assumptions=["E6: registry maps are crate::verif_map (abstract finite map)", "std::fmt::format stubbed (error text)", "RegistryCore driven directly (no RwLock); Registry::{register,unregister,gather} are one-line delegations under the lock"],
+    bounds="one register / unregister step from an ARBITRARY registry state of fixed shape (2 live descriptor ids, 2 names with recorded dimensions, 1 live collector; all ids and dimension hashes symbolic 64-bit values, names symbolic in {a,b,c}); collectors with 1 or 2 symbolic descriptors; unwind 6",
+    outside="states with more entries (the per-entry logic is uniform); collectors with >2 descriptors or with duplicate descriptors inside one collector; collisions of the collector id (sum of descriptor ids) -- excluded by assumption as 64-bit hash collisions",
+    assumptions=["E6: registry maps are crate::verif_map (abstract finite map)", "std::fmt::format stubbed (error text)", "RegistryCore driven directly (no RwLock); Registry::{register,unregister,gather} are one-line delegations under the lock",
+                 "pre-state constructed directly through the maps' insert API (state representation = the three maps)"],
 )
-
 
 PROPS["C18"] = dict(
     hosts={"histogram": ["c18.rs"]},
@@ -167,9 +168,12 @@ PROPS["C15"] = dict(
     cfgs=["prometheus_verif_map"],
     jobs=4,
     harnesses={
-        "c15_id_name_value_boundary": dict(cap=2400),
+        "c15_id_boundary_shift_21_vs_12": dict(cap=2400),
+        "c15_id_boundary_shift_20_vs_11": dict(cap=2400),
+        "c15_id_same_shape_22": dict(cap=2400, tier="thorough"),
         "c15_id_two_const_labels_order_independent": dict(cap=2400),
-        "c15_dim_hash_structural": dict(cap=2400),
+        "c15_dim_hash_variable_label_sets": dict(cap=2400),
+        "c15_dim_hash_const_vs_variable": dict(cap=2400),
     },
     functions=["Desc::new (id and dim_hash computation, const label pair sorting)", "desc::is_valid_metric_name", "desc::is_valid_label_name"],
     bounds="metric name 1..=2 bytes and one const-label value 0..=2 bytes (ASCII, symbolic); two const labels with 1-byte symbolic values in both insertion orders and every map iteration order; help 1 symbolic lowercase letter; variable-label lists from {[], [x], [y], [x,y], [y,x]}; hashed streams <= 8 bytes; unwind 6",
@@ -179,6 +183,7 @@ PROPS["C15"] = dict(
 
 
 PROPS["C02"] = dict(
+    e5=True,
     hosts={"histogram": ["c02.rs"]},
     cfgs=["prometheus_verif_sync"],
     env={"PROMETHEUS_VERIF_K": "2"},
@@ -189,6 +194,7 @@ PROPS["C02"] = dict(
         "c02_s2_two_observes_prefix_closed": dict(cap=7200, tier="thorough"),
         "c02_s3_two_observers_vs_collect": dict(cap=7200, tier="thorough"),
         "c02_s4_two_collectors": dict(cap=7200, tier="thorough"),
+        "c03_batch_flush_three_collects": dict(cap=10800, tier="thorough"),
     },
     functions=["HistogramCore::observe", "HistogramCore::proto", "ShardAndCount::{inc, inc_by, flip, get}", "AtomicU64::{inc_by, inc_by_with_ordering, swap, compare_exchange_weak}", "AtomicF64::{inc_by, swap}"],
     bounds="K rounds (see env PROMETHEUS_VERIF_K), 2-3 threads, observations in {0,1,2,3}, 1-2 buckets, unwind 6",
@@ -197,8 +203,87 @@ PROPS["C02"] = dict(
 )
 
 
+
+PROPS["C03"] = dict(
+    hosts={"histogram": ["c03.rs"]},
+    jobs=4,
+    harnesses={
+        "c03_sequential_history_4": dict(cap=3600),
+        "c03_quiescent_collect_returns_immediately": dict(cap=1800),
+        "c03_sequential_history_6": dict(cap=7200, tier="thorough"),
+    },
+    functions=["HistogramCore::observe", "HistogramCore::proto", "HistogramCore::sample_sum", "HistogramCore::sample_count", "LocalHistogramCore::observe", "LocalHistogramCore::flush", "LocalHistogramCore::clear"],
+    bounds="symbolic histories of 4 (quick) / 6 (thorough) operations + a final collect, each operation one of observe(v) / local observe(v) / local flush / collect / get_sample_count / get_sample_sum, v in {0,1,2,3}; 1 bucket; sequential (the concurrent scenarios are C02's S4 and c03_batch_flush_three_collects, thorough tier of C02)",
+    outside="longer histories; interleavings (see C02)",
+    assumptions=["histogram core constructed directly (1 bucket)", "real std atomics, treated sequentially by Kani"],
+)
+
+
+PROPS["C17"] = dict(
+    hosts={"encoder_text": ["c17.rs"]},
+    jobs=4,
+    harnesses={
+        "c17_text_encoder_untyped_family": dict(cap=1800),
+        "c17_text_encoder_counter_gauge": dict(cap=2400),
+        "c17_text_encoder_histogram_summary": dict(cap=3600, tier="thorough"),
+        "c17_family_without_name_or_samples_is_err": dict(cap=1800),
+    },
+    functions=["TextEncoder::encode_utf8", "TextEncoder::encode_impl", "encoder::check_metric_family", "text::write_sample", "text::label_pairs_to_text"],
+    bounds="one family of each MetricType with one sample (literal values), empty help; family without samples / without name for every type; unwind 18",
+    outside="ProtobufEncoder (default-feature build; its encode is check_metric_family + the protobuf crate's writer); arguments of unbounded size; allocation failure. The other listed entry points are checked for panics inside the harnesses of C05, C06, C08 and C09",
+    assumptions=["std::fmt::format stubbed (the lower-cased type name is not the subject)", "<f64 as Display>::fmt stubbed by a bit-pattern marker", "text::find_first_occurence stubbed by a naive byte search (memchr uses cpuid)"],
+)
+
 # ------------------------------------------------------------------------------------------------
 MANIFEST_TEXT = {}
+_KANI = "bounded model checking of the compiled crate (Kani -> CBMC -> CaDiCaL), harness compiled inside the crate; counterexamples replayed natively"
+MANIFEST_TEXT["C01"] = dict(
+    technique="Lal-Reps K-round sequentialisation of the real counter code on versioned atomics, decided by Kani/CBMC + CaDiCaL (schedule = solver variables)",
+    level="Solver verdict over every round-robin schedule with K=3 rounds of 2-3 threads running the real inc/inc_by/get/reset/local-flush code, increments any u8: final sum, subset-sum reads with real-time bounds, monotone reads. Bounded (threads, operations, pre-emptions), sequentially consistent.",
+    note="Trusted: crate::verif_sync (K-version atomics, ~250 lines) as the model of std atomics under SC; CAS modelled strong with stutter pruning; Desc::new stubbed; Kani/CBMC.",
+)
+MANIFEST_TEXT["C05"] = dict(
+    technique="Kani/CBMC bounded model checking of hash_label_values / hash_labels / get_or_create_metric with FNV replaced by an injective stream packing (E4) and the children map by an abstract finite map (E6)",
+    level="Solver verdict over all label values of 0..=2 bytes (child key: equal iff tuples equal position by position, slice and map form agree) and over all 1-byte values for the two-request get-or-create path (same child iff equal, exposed pairs, fresh child is 0, one child per tuple). Bounded string lengths; 'up to collisions of the 64-bit hash' made precise by E4.",
+    note="Trusted: E4 injective hash stub (real FNV is run on the concrete counterexample during native replay), E6 verif_map, Opts::describe stubbed by a literal descriptor in the get-or-create harness, slice::sort replaced by insertion sort, parking_lot slow paths assume(false).",
+)
+MANIFEST_TEXT["C09"] = dict(
+    technique="Kani/CBMC bounded model checking of is_valid_metric_name / is_valid_label_name over all strings of <= 3 Unicode scalars and of Desc::new / HistogramCore::new over symbolic names",
+    level="Solver verdict: the two validators equal the two regexes for every string of <= 3 arbitrary Unicode scalar values; Desc::new accepts exactly valid 2-char names with non-empty help. Bounded lengths.",
+    note="Trusted: std::fmt::format stubbed in Desc::new harnesses; E6 verif_map for const labels; Kani/CBMC.",
+)
+MANIFEST_TEXT["C11"] = dict(
+    technique="Lal-Reps K-round sequentialisation of the real gauge code on versioned atomics with a linearizability oracle encoded as a finite disjunction, decided by Kani/CBMC + CaDiCaL",
+    level="Solver verdict over every K=3 round-robin schedule of 2 threads x 2 operations (IntGauge: operations chosen symbolically out of set/inc/dec/add/sub/get; Gauge: fixed operation kinds, symbolic operands): every history is linearizable w.r.t. real time; sub(x) == add(-x) bit-exactly for every f64. Bounded, SC.",
+    note="Trusted: crate::verif_sync as SC model of std atomics; Desc::new stubbed; Kani/CBMC float model.",
+)
+MANIFEST_TEXT["C12"] = dict(
+    technique="Kani/CBMC bounded model checking of the local-counter / local-histogram code, one or two symbolically chosen operations from an arbitrary state",
+    level="Solver verdict: from an arbitrary (shared, pending, pending) counter state any two operations out of nine keep shared = direct + flushed and local = unflushed; float flush twice / reset; local histogram with 0-2 pending f64 observations and one of five operations (flush twice, clear, clone+drop, direct observe, drop) leaves exactly the expected shared count / bit-exact sum / bucket. Bounded history length, inductive state for counters.",
+    note="Trusted: Desc::new stubbed; histogram core constructed directly with 1 bucket; Kani/CBMC.",
+)
+MANIFEST_TEXT["C18"] = dict(
+    technique="Kani/CBMC bounded model checking of the timer code with std::time::Instant::now stubbed by arbitrary (not even monotone) instants",
+    level="Solver verdict over every clock reading and every way a timer can end (observe_duration, stop_and_record, stop_and_discard, drop): exactly one non-negative observation or none. Bounded number of timers.",
+    note="Trusted: Instant::now stub (transmuted (secs, nanos), size asserted); histogram core constructed directly; Kani/CBMC.",
+)
+MANIFEST_TEXT["C15"] = dict(
+    technique="Kani/CBMC bounded model checking of Desc::new with FNV replaced by an injective stream packing (E4) and the const-label map by an abstract map with symbolic iteration order (E6)",
+    level="Solver verdict over all byte contents of short names / values (boundary-shifted splits enumerated by length, contents symbolic), all insertion and iteration orders of two const labels, variable-label lists as sets: id and dim_hash equal exactly when the statement says. Bounded string lengths.",
+    note="Trusted: E4, E6, std::fmt::format and slice::sort stubs; Kani/CBMC.",
+)
+MANIFEST_TEXT["C06"] = dict(
+    technique="Kani/CBMC bounded model checking of RegistryCore::register / unregister as one step from an arbitrary registry state (inductive), ids and dimension hashes symbolic 64-bit values",
+    level="Solver verdict: from an arbitrary state of fixed shape one register (1 or 2 symbolic descriptors) or unregister succeeds exactly when the statement says, reports AlreadyReg, and leaves the complete state unchanged on failure. Histories of any length pass only through such states; shape and collector sizes bounded.",
+    note="Trusted: E6 verif_map, pre-state built through the maps' API, collector-id collisions assumed away (64-bit hash collisions), std::fmt::format stubbed.",
+)
+MANIFEST_TEXT["C02"] = dict(
+    technique="Lal-Reps K-round sequentialisation of the real observe/proto code (Kani/CBMC) plus a z3 RC11 release/acquire litmus built from the atomic events extracted from the crate's MIR (E5)",
+    level="Kani: every K-round round-robin schedule of one observer and one collector (quick; more threads in thorough) yields a snapshot that is one consistent cut respecting real time. z3: no RC11-consistent execution lets the collector count an observation/flush whose bucket or sum update it then misses; twins with the publication weakened are sat. Bounded threads, rounds, buckets; litmus bounded to 1 observer/flush x 1 collector.",
+    note="Trusted: crate::verif_sync (SC), the MIR reader's classification of atomic locations (fails closed), the RC11 fragment encoded (po, rf, mo, release sequences, sw, hb, coherence, RMW atomicity; no fences, no SC axioms).",
+)
+
+CLAIMED = ["C01", "C05", "C08", "C09", "C11", "C12", "C18"]
 MANIFEST_TEXT["C08"] = dict(
     technique="bounded model checking (Kani/CBMC + CaDiCaL) of check_and_adjust_buckets, HistogramCore::observe/proto and LocalHistogramCore over all f64 bit patterns",
     level="Solver verdict over every f64 bit pattern for bucket lists of length 0-3 and 1-2 observations: acceptance rule, cumulative counts, count and bit-exact sum; unwinding assertions on. Bounded, not a proof.",
@@ -209,5 +294,5 @@ NOT_APPLICABLE = {
     "C19": "subject is a procedural macro (static-metric on syn/quote) and the quantifier is over programs; Kani cannot compile or symbolically execute a proc-macro crate and a hand translation of syn/quote to SMT is out of reach",
 }
 for _p in ["C01", "C02", "C03", "C04", "C05", "C06", "C07", "C09", "C10", "C11", "C12", "C13", "C14", "C15", "C16", "C17", "C18", "C20"]:
-    if _p not in PROPS:
+    if _p not in CLAIMED:
         NOT_APPLICABLE[_p] = "check not built yet (work in progress, see DESIGN.md); not claimed until its harnesses are committed"
